@@ -587,3 +587,31 @@ var anchorSigs = func() map[string]string {
 	_ = json.Unmarshal(anchorsJSON, &m)
 	return m
 }()
+
+// FuncValueTargets: the module functions a function-typed operand denotes: a literal, a function, or a bound method
+// value (t.method passed as a value: go/ssa wraps it in a synthetic $bound function whose only call is the method).
+func FuncValueTargets(v ssa.Value) []*ssa.Function {
+	var f *ssa.Function
+	switch x := v.(type) {
+	case *ssa.MakeClosure:
+		f, _ = x.Fn.(*ssa.Function)
+	case *ssa.Function:
+		f = x
+	}
+	if f == nil {
+		return nil
+	}
+	out := []*ssa.Function{f}
+	if f.Synthetic != "" && f.Blocks != nil {
+		for _, b := range f.Blocks {
+			for _, ins := range b.Instrs {
+				if c, ok := ins.(ssa.CallInstruction); ok {
+					if g := c.Common().StaticCallee(); g != nil {
+						out = append(out, g)
+					}
+				}
+			}
+		}
+	}
+	return out
+}
